@@ -388,6 +388,93 @@ func checkC08(c *Ctx, r *Report) {
 		r.Check(same, "C08.R3", "sibling responders agree on SetHeaders", "-", strings.Join(fl, ", "), "the responders disagree: "+strings.Join(fl, ", ")+" (plain and tunnelled answers differ)")
 	}
 
+	// ---- R7: the plain responder adds no header of its own. net/http sniffs a Content-Type from the first bytes when
+	// the header map has none; the tunnel responder does not. A response whose origin sent no Content-Type is
+	// delivered without one on both transports: the plain responder pins the absent field (map entry set to nil).
+	for _, f := range c.FuncsNamed("(*reservoir/proxy/responder.HTTPResponder).Write") {
+		isPin := func(in ssa.Instruction) bool {
+			mu, ok := in.(*ssa.MapUpdate)
+			if !ok {
+				return false
+			}
+			k, isC := constString(mu.Key)
+			if !isC || k != "Content-Type" {
+				return false
+			}
+			kv, isK := mu.Value.(*ssa.Const)
+			return isK && kv.Value == nil
+		}
+		isBodyWrite := func(in ssa.Instruction) bool {
+			x, ok := in.(*ssa.Call)
+			if !ok {
+				return false
+			}
+			n := calleeName(x)
+			return n == "io.Copy" || n == "(net/http.ResponseWriter).WriteHeader" || n == "(net/http.ResponseWriter).Write" || n == "(*reservoir/proxy/responder.HTTPResponder).writeStatusHeader"
+		}
+		pinExists := false
+		eachInstr(f, func(in ssa.Instruction) {
+			if isPin(in) {
+				pinExists = true
+			}
+		})
+		skipPresent := func(blk *ssa.BasicBlock, si int) bool {
+			iff, ok := blk.Instrs[len(blk.Instrs)-1].(*ssa.If)
+			if !ok {
+				return false
+			}
+			mentions := derivesFrom(iff.Cond, func(v ssa.Value) bool {
+				if k, ok := constString(v); ok && k == "Content-Type" {
+					return true
+				}
+				if lk, ok := v.(*ssa.Lookup); ok {
+					if k, ok := constString(lk.Index); ok && k == "Content-Type" {
+						return true
+					}
+				}
+				return false
+			})
+			if !mentions {
+				return false
+			}
+			return len(walkFrom(pos{blk.Succs[si], 0}, isBodyWrite, isPin, nil)) == 0
+		}
+		ok := pinExists && len(walkFrom(pos{f.Blocks[0], 0}, isPin, isBodyWrite, skipPresent)) == 0
+		r.Check(ok, "C08.R7", "the plain responder does not invent a Content-Type", c.Pos(f.Pos()), "an absent Content-Type is pinned (header[\"Content-Type\"] = nil) before the first write", "HTTPResponder.Write lets net/http sniff a Content-Type when the origin sent none: the client receives a header the origin never sent (and a 206 slice of the same stored body can get a different one); the tunnel responder does not do this")
+	}
+
+	// ---- R8: a relayed or stored response keeps the Accept-Ranges the origin sent: where processRequest advertises
+	// range support on top of the origin's headers it does so only when the origin sent no Accept-Ranges itself
+	// (206 / 416 answers built by the proxy in handleRangeRequest are its own and not covered)
+	for _, f := range c.FuncsNamed("(*" + proxyPkg + ".Proxy).processRequest") {
+		nAR := 0
+		for _, hc := range helperContexts(f, 1) {
+			g := hc.fn
+			if fnKey(g) == "(*"+proxyPkg+".Proxy).handleRangeRequest" {
+				continue
+			}
+			eachInstr(g, func(in ssa.Instruction) {
+				x, ok := in.(*ssa.Call)
+				if !ok || (calleeName(x) != "(reservoir/proxy/responder.Responder).SetHeader" && calleeName(x) != "(reservoir/proxy/responder.Responder).AddHeader") {
+					return
+				}
+				a := callArgs(x)
+				if name, isC := constString(a[1]); !isC || name != "Accept-Ranges" {
+					return
+				}
+				nAR++
+				guarded := false
+				for k := range factStrs(g, x) {
+					if strings.Contains(k, `"Accept-Ranges")==""=true`) || strings.Contains(k, `"Accept-Ranges")!=""=false`) {
+						guarded = true
+					}
+				}
+				r.Check(guarded, "C08.R8", fmt.Sprintf("%s: Accept-Ranges is added only when the origin sent none (#%d)", fnKey(g), nAR), c.InstrPos(x), "on the Get(\"Accept-Ranges\") == \"\" edge", "Accept-Ranges: bytes overwrites what the origin sent: an origin that answers Accept-Ranges: none (a live stream, a dynamic page) is delivered as Accept-Ranges: bytes")
+			})
+		}
+		r.Floor("C08.R8", nAR, 1, "Accept-Ranges advertisements in processRequest")
+	}
+
 	// ---- R4
 	for _, f := range c.FuncsNamed(proxyPkg + ".changeRequestToTarget") {
 		got := map[string]string{}
